@@ -32,7 +32,7 @@ theorem inv_insert_fresh {t : Table τ} (h : Inv R t) {n : Name} {typs : List τ
 
 /-! ## Fresh names: `newName` terminates with a name that is neither bound nor reserved -/
 
-/-- `newName_fresh` + termination. The model's loop runs with fuel `|entries| + |reserved|`; the
+/-- `newName_fresh` + termination. The model's loop runs with fuel `|entries| + |reserved| + |reservedWords|`; the
 statement says that the result is the FIRST element of the Go candidate sequence
 `prefix, prefix_, prefix_N, …` (`seqAt`) that is neither registered nor reserved. The unbounded Go
 loop computes exactly that element; it terminates because (`cand_injective`) the candidates are
@@ -40,10 +40,22 @@ pairwise distinct while only finitely many names are taken (`exists_free_candida
 theorem newName_fresh (c : Cfg) (t : Table τ) (typs : List τ) :
     newName R c t typs ∉ t.names ∧ newName R c t typs ∉ c.reserved ∧
     ∃ k, newName R c t typs = seqAt c.pfx (hintOf R typs) k ∧
-      ∀ j, j < k → seqAt c.pfx (hintOf R typs) j ∈ t.names ++ c.reserved := by
+      ∀ j, j < k → seqAt c.pfx (hintOf R typs) j ∈ t.names ++ c.reserved ++ reservedWords := by
   obtain ⟨k, hk, hfree, hall⟩ := newName_spec R c t typs
   rw [← hk] at hfree
-  exact ⟨(taken_false hfree).1, (taken_false hfree).2, k, hk, fun j hj => taken_true (hall j hj)⟩
+  exact ⟨(taken_false hfree).1, (taken_false hfree).2.1, k, hk, fun j hj => taken_true (hall j hj)⟩
+
+/-- since 60219e3: a minted name is never a Go keyword nor a predeclared identifier (`reservedWords`,
+compared with go/token and go/types of the toolchain by the check) -/
+theorem newName_not_reserved_word (c : Cfg) (t : Table τ) (typs : List τ) :
+    newName R c t typs ∉ reservedWords := by
+  obtain ⟨k, hk, hfree, _⟩ := newName_spec R c t typs
+  rw [← hk] at hfree
+  exact (taken_false hfree).2.2
+
+-- non-vacuity: with -pluginprefix=equal=func the first helper is `func_`, with equal=len it is `len_`
+example : newName GTy.rel { pfx := asc "func" } ({} : Table GTy) [GTy.named 0 (asc "In") (.struct .fnil)] = asc "func_" := by decide
+example : newName GTy.rel { pfx := asc "len" } ({} : Table GTy) [GTy.basic (asc "int")] = asc "len_" := by decide
 
 /-- the candidates are pairwise distinct, so the search cannot cycle -/
 theorem candidates_distinct (pfx : Name) (name : List Letter) {i j : Nat}
